@@ -42,11 +42,13 @@ type c19Group struct {
 	Stall bool `json:"down_means_health_check_never_answered"`
 	// ProxyTimeout of the group's location (0 = none)
 	ProxyTimeout time.Duration `json:"proxy_timeout"`
+	// H2C: the upstream is configured with enableH2C (its health check path must still be honoured)
+	H2C bool `json:"enable_h2c"`
 }
 
 func c19(r *hx.Run) {
 	r.Level = "fault_enumeration"
-	r.Rule = "G upstream groups in one in-process pike (whose unchanged configuration is re-applied before odd phases) plus two groups behind the real binary (eight round-robin primaries; primary+backup with policy first; all down / all up alternately, so that more than eight transitions to sick happen), each with 1-4 servers (every primary/backup mix incl. backups only), policy from {roundRobin, first, random, leastconn, default}, health check by ping path (/ping or /) or by port; in a quarter of the groups a server goes down by answering its health check with 503 while it keeps listening; one group of two primaries goes down by never answering its health check (the port accepts). Five more groups (one per policy, primary + backup) fail over to the backup in the last phase before the recovery and must hand the traffic back. Phases: initial (all up), then random up/down vectors (all down, primaries down, one down, ...), finally all up again; servers are really stopped and restarted on the same port. After each change the driver waits until a live server of the group has seen two complete health-check rounds that began after the change (pings/connections are visible at the origins; 11.5 s when nothing is alive), then sends 12 sequential requests per group: each must be served by a healthy primary, or by a healthy backup only if no primary is healthy; roundRobin counts over healthy primaries differ by <= 1; with nothing healthy every request gets a 5xx within 2 s (also after 200 clients sent their request and went away at once); after recovery traffic resumes. Finally, with everything healthy, single requests fail for reasons that are not the server's (the client gives up on a slow request after 150 ms; a request exceeds the location's 1.5 s proxy timeout; healthy primaries drop the connection of body-less GET/HEAD requests, which must not be handed to a backup) and, for groups with backups, one slow request is held in flight on every primary: the 12 requests that follow are judged by the same rule (the servers never failed a health check). Non-trivial = settled phase with at least one server down; distinct = (policy, ping kind, backup mix, up vector)."
+	r.Rule = "G upstream groups in one in-process pike (whose unchanged configuration is re-applied before odd phases) plus two groups behind the real binary (eight round-robin primaries; primary+backup with policy first; all down / all up alternately, so that more than eight transitions to sick happen), each with 1-4 servers (every primary/backup mix incl. backups only), policy from {roundRobin, first, random, leastconn, default}, health check by ping path (/ping or /) or by port; in a quarter of the groups a server goes down by answering its health check with 503 while it keeps listening; a quarter of the groups are reached over h2c (enableH2C), half of those of the 503 kind; one group of two primaries goes down by never answering its health check (the port accepts). Five more groups (one per policy, primary + backup) fail over to the backup in the last phase before the recovery and must hand the traffic back. Phases: initial (all up), then random up/down vectors (all down, primaries down, one down, ...), finally all up again; servers are really stopped and restarted on the same port. After each change the driver waits until a live server of the group has seen two complete health-check rounds that began after the change (pings/connections are visible at the origins; 11.5 s when nothing is alive), then sends 12 sequential requests per group: each must be served by a healthy primary, or by a healthy backup only if no primary is healthy; roundRobin counts over healthy primaries differ by <= 1; with nothing healthy every request gets a 5xx within 2 s (also after 200 clients sent their request and went away at once, and for three bursts of 24 concurrent GETs of one cold URI, which coalesce behind a fetch that never finds an upstream); after recovery traffic resumes. Finally, with everything healthy, single requests fail for reasons that are not the server's (the client gives up on a slow request after 150 ms; a request exceeds the location's 1.5 s proxy timeout; healthy primaries drop the connection of body-less GET/HEAD requests, which must not be handed to a backup) and, for groups with backups, one slow request is held in flight on every primary: the 12 requests that follow are judged by the same rule (the servers never failed a health check). Non-trivial = settled phase with at least one server down; distinct = (policy, ping kind, backup mix, up vector)."
 	r.Assume = []string{"the health checker's 5 s ticker has no clock seam: settling is observed, the run is wall-clock bound", "behaviour inside the unsettled window is not judged"}
 	rnd := rand.New(rand.NewSource(r.Seed))
 	nGroups := r.Pick(14, 100)
@@ -67,6 +69,9 @@ func c19(r *hx.Run) {
 		if g%4 == 3 {
 			gr.Ping, gr.Soft = "/", true
 		}
+		// every eighth group reaches its servers over h2c: one that goes down by closing its port (5, 13, ...)
+		// and one whose health check answers 503 while the port stays open (7, 15, ...)
+		gr.H2C = g%8 == 5 || g%8 == 7
 		for range mix {
 			gr.Servers = append(gr.Servers, total)
 			gr.Up = append(gr.Up, true)
@@ -93,7 +98,7 @@ func c19(r *hx.Run) {
 		cfg := &config.PikeConfig{Caches: []config.CacheConfig{{Name: "c19", Size: 1000, HitForPass: "5m"}}}
 		var names []string
 		for _, g := range groups {
-			u := config.UpstreamConfig{Name: fmt.Sprintf("g%d", g.ID), Policy: g.Policy, HealthCheck: g.Ping}
+			u := config.UpstreamConfig{Name: fmt.Sprintf("g%d", g.ID), Policy: g.Policy, HealthCheck: g.Ping, EnableH2C: g.H2C}
 			for i, oi := range g.Servers {
 				u.Servers = append(u.Servers, config.UpstreamServerConfig{Addr: origins[oi], Backup: g.Backup[i]})
 			}
@@ -114,6 +119,10 @@ func c19(r *hx.Run) {
 		return &hx.Reply{Status: 200, Header: [][2]string{{"Cache-Control", "no-store"}}, Body: []byte("ok")}
 	}
 	w.Farm.SetScript(okScript)
+	// a little jitter where the proxy hands over to the upstream picker: requests of one key overlap there
+	pts := hx.InstallPoints(r.Seed)
+	pts.SetJitter([]string{"proxy.afterUpstream", "disp.got"}, 3000)
+	defer hx.UninstallPoints()
 	inproc := &c19World{name: "inproc", farm: w.Farm, addr: w.Addr, cl: w.Cl}
 	for _, g := range groups {
 		g.w, g.World = inproc, "inproc"
@@ -280,6 +289,40 @@ func c19(r *hx.Run) {
 				}
 				awg.Wait()
 				r.Add("clients_gone_at_once_during_an_outage", 200)
+				// ... and bursts of concurrent GETs of one cold URI (they coalesce behind the first one, whose
+				// "fetch" ends without any upstream; jitter at the proxy hook keeps it in flight long enough):
+				// every one of them is refused promptly
+				for b := 0; b < 3 && !r.TooMany(); b++ {
+					reqN++
+					const N = 24
+					burstURI := fmt.Sprintf("/g%d/burst?n=%d", g.ID, reqN)
+					bres := make([]*hx.Result, N)
+					before := g.w.farm.LogLen()
+					for k := 0; k < N; k++ {
+						awg.Add(1)
+						go func(k int) {
+							defer awg.Done()
+							bres[k] = hx.NewClient(nil).Do(hx.Req{Addr: g.w.addr, Host: "c19.example", URI: burstURI, Timeout: 8 * time.Second})
+						}(k)
+					}
+					awg.Wait()
+					contacts := 0
+					for _, f := range g.w.farm.LogSince(before) {
+						if strings.HasPrefix(f.URI, fmt.Sprintf("/g%d/burst", g.ID)) {
+							contacts++
+						}
+					}
+					r.Eval(1)
+					r.Add("concurrent_same_key_requests_during_an_outage", N)
+					for k, res := range bres {
+						if res.Err != nil || res.Status < 500 || contacts != 0 {
+							r.Violate("no_prompt_5xx_when_nothing_healthy", map[string]string{"policy": g.Policy, "pattern": "concurrent_requests_of_one_key"},
+								fmt.Sprintf("request %d of %d concurrent GETs of one cold URI: status %d err %v (8 s client timeout), upstream contacts %d", k, N, res.Status, res.Err, contacts),
+								res.Brief(), map[string]interface{}{"group": g, "phase": phase, "uri": burstURI})
+							break
+						}
+					}
+				}
 			}
 			counts := map[int]int{}
 			cs := map[string]interface{}{"group": g, "phase": phase, "allowed_server_positions": allowed}
